@@ -89,6 +89,15 @@ def typeCorr (target : DT) (a : TArr) : TArr :=
   let fits := decide (a.arr.maxVal < 256)
   ⟨target, ⟨a.arr.n0, a.arr.n1, fun i j => convVal a.dt target fits (a.arr.get i j)⟩⟩
 
+/-- every value inside the box satisfies `p` -/
+def Arr2.allIn (a : Arr2 Rat) (p : Rat → Bool) : Bool :=
+  (List.range a.n0).all fun (i : Nat) => (List.range a.n1).all fun (j : Nat) => p (a.get (i : Int) (j : Int))
+
+/-- `TypeCorrection.correct_array` with the raising path: skimage raises ValueError for float images outside [-1, 1]
+that are converted to an integer type -/
+def typeCorrE (target : DT) (a : TArr) : Except Err TArr :=
+  if a.arr.allIn (convOk a.dt target) then .ok (typeCorr target a) else .error .value
+
 /-! ### TranslationCorrection (whole pixels), DriftCorrection (inactive) -/
 
 def transCorrInt (active : Bool) (tx ty : Int) (a : TArr) : TArr :=
@@ -128,6 +137,14 @@ def rot90_3 {β} (axis : Ax3) (n : Nat) (arr : Int → Int → Int → β) (i j 
 
 def transfCorr (mode : Mode) (T : Affine2 Rat) (csS csD : CS2) (rnd : Rounding) (a : TArr) : TArr :=
   ⟨a.dt, ⟨csD.n0, csD.n1, warp2 0 mode T csS csD rnd a.arr.get⟩⟩
+
+/-- the real code indexes the array it is handed with source voxels that are valid for the SOURCE SYSTEM's shape: an array
+smaller than that shape raises IndexError as soon as such a voxel is needed (a larger array is read inside the system's box) -/
+def transfCorrE (mode : Mode) (T : Affine2 Rat) (csS csD : CS2) (rnd : Rounding) (a : TArr) : Except Err TArr :=
+  let bad := (List.range csD.n0).any fun (v0 : Nat) => (List.range csD.n1).any fun (v1 : Nat) =>
+    let p := src2 mode T csS csD rnd v0 v1
+    csS.valid p && (decide ((a.arr.n0 : Int) ≤ p.1) || decide ((a.arr.n1 : Int) ≤ p.2))
+  if bad then .error .index else .ok (transfCorr mode T csS csD rnd a)
 
 /-- the per-object cache: source voxel and validity for every destination voxel, computed on first use -/
 abbrev Cache := Int → Int → (Int × Int) × Bool
